@@ -211,6 +211,13 @@ Definition trace_from (c : cfg) (thr : N) (d : list file) (h : history) : list s
     One process serves one configured peer; init_msg_file can register more, which is modelled
     too ([hstart] with several addresses).  A restart or a crash ends the process, i.e. every
     registered log is re-initialised. *)
+(** the session layer: BGPPeering.__init__ keeps the configured text as it is (self.peer_addr =
+    peeraddr) and every callback is made with it (protocol.factory.peer_addr, or the string itself
+    in clientConnectionFailed), while init() registers the lower-cased configured text.  The two
+    agree only because nothing on the way rewrites the text (compared with the real factory
+    object on every run, for canonical and non-canonical IPv6 text forms). *)
+Definition factory_peer_addr (configured : bytes) : bytes := configured.
+
 Definition lower_octet (x : N) : N := if (65 <=? x) && (x <=? 90) then x + 32 else x.
 Definition lower (a : bytes) : bytes := map lower_octet a.
 
